@@ -18,11 +18,74 @@ import (
 type provState struct {
 	memo map[ssa.Value]string
 	busy map[ssa.Value]bool
+	// bind: inside an expanded accessor (see accessorResult) the callee's
+	// parameters denote the caller's argument paths
+	bind  map[*ssa.Parameter]string
+	depth int
+}
+
+// ModulePrefix: import-path prefix of the analysed module (set by the
+// loader); only its functions are expanded as accessors.
+var ModulePrefix = "github.com/high-moctane/mocrelay"
+
+// accessorResult: fn is a straight-line, effect-free function of its
+// parameters with one result (`func (c *T) len() int { return len(c.evs) }`):
+// calling it is the same as writing its body, so its call sites get the
+// body's access path. Anything with a branch, a store, a non-builtin call or
+// an allocation is not an accessor.
+func accessorResult(fn *ssa.Function) ssa.Value {
+	if fn == nil || len(fn.Blocks) != 1 || fn.Pkg == nil || !strings.HasPrefix(fn.Pkg.Pkg.Path(), ModulePrefix) {
+		return nil
+	}
+	if fn.Signature.Results().Len() != 1 || len(fn.Blocks[0].Instrs) > 16 {
+		return nil
+	}
+	var res ssa.Value
+	for _, in := range fn.Blocks[0].Instrs {
+		switch x := in.(type) {
+		case *ssa.FieldAddr, *ssa.Field, *ssa.BinOp, *ssa.Convert, *ssa.ChangeType, *ssa.IndexAddr, *ssa.Index, *ssa.DebugRef:
+		case *ssa.UnOp:
+			if x.Op == token.ARROW {
+				return nil
+			}
+		case *ssa.Lookup:
+			if x.CommaOk {
+				return nil
+			}
+		case *ssa.Call:
+			b, ok := x.Call.Value.(*ssa.Builtin)
+			if !ok || (b.Name() != "len" && b.Name() != "cap" && b.Name() != "min" && b.Name() != "max") {
+				return nil
+			}
+		case *ssa.Return:
+			if len(x.Results) != 1 {
+				return nil
+			}
+			res = x.Results[0]
+		default:
+			return nil
+		}
+	}
+	return res
 }
 
 // PathOf returns the canonical access path of v.
 func PathOf(v ssa.Value) string {
 	st := &provState{memo: map[ssa.Value]string{}, busy: map[ssa.Value]bool{}}
+	return st.path(v)
+}
+
+// PathOfIn: access path of a value of a callee, written in the caller's
+// terms: the callee's parameters are replaced by the access paths of the
+// call's arguments.
+func PathOfIn(v ssa.Value, call *ssa.CallCommon) string {
+	fn := StaticCallee(call)
+	st := &provState{memo: map[ssa.Value]string{}, busy: map[ssa.Value]bool{}, bind: map[*ssa.Parameter]string{}, depth: 1}
+	if fn != nil && len(fn.Params) == len(call.Args) {
+		for i, p := range fn.Params {
+			st.bind[p] = PathOf(call.Args[i])
+		}
+	}
 	return st.path(v)
 }
 
@@ -180,6 +243,9 @@ func fieldName(t types.Type, i int) string {
 func (st *provState) compute(v ssa.Value) string {
 	switch x := v.(type) {
 	case *ssa.Parameter:
+		if p, ok := st.bind[x]; ok {
+			return p
+		}
 		fn := x.Parent()
 		if fn.Signature.Recv() != nil && len(fn.Params) > 0 && fn.Params[0] == x {
 			return "recv"
@@ -401,6 +467,15 @@ func (st *provState) call(c *ssa.CallCommon, v ssa.Value) string {
 	}
 	if transparent[name] && len(c.Args) == 1 {
 		return st.path(c.Args[0])
+	}
+	if fn := StaticCallee(c); fn != nil && st.depth < 3 {
+		if res := accessorResult(fn); res != nil && len(fn.Params) == len(c.Args) {
+			sub := &provState{memo: map[ssa.Value]string{}, busy: map[ssa.Value]bool{}, bind: map[*ssa.Parameter]string{}, depth: st.depth + 1}
+			for i, p := range fn.Params {
+				sub.bind[p] = st.path(c.Args[i])
+			}
+			return sub.path(res)
+		}
 	}
 	var as []string
 	if c.IsInvoke() {
